@@ -156,9 +156,15 @@ Section Sound.
   Definition sound_cmd (c : cmd) : Prop :=
     forall s o s', exec T callrel c s o s' -> forall A, gam p0 A s -> cov p0 (xof o (aexec T c A)) s'.
 
+  Lemma xof_xapp o X Y : xof o (xapp X Y) = xof o X ++ xof o Y.
+  Proof. destruct o; reflexivity. Qed.
+
   Lemma xflat_cov (f : astate -> exits) l A o s :
     In A l -> cov p0 (xof o (f A)) s -> cov p0 (xof o (xflat f l)) s.
-  Proof. intros H Hc. destruct o; simpl; eapply cov_flat; eauto. Qed.
+  Proof.
+    intros H Hc. induction l as [|B r IH]; [destruct H|]. unfold xflat; simpl. rewrite xof_xapp.
+    destruct H as [->|H]; [apply cov_app_l; exact Hc|apply cov_app_r; apply IH; exact H].
+  Qed.
 
   Lemma loop_sound c : sound_cmd c ->
     forall A0, forallb (fun A' => aleq A' A0) (xn (aexec T c A0) ++ xc (aexec T c A0)) = true ->
